@@ -11,7 +11,7 @@ Slot(src, p, dom) == [src |-> src, p |-> p, dom |-> dom]
 Fix(src, p, v)    == [src |-> src, p |-> p, v |-> v]
 Dep(n, a, c, t)   == [name |-> n, alias |-> a, cond |-> c, tags |-> t]
 C(k, p, a)        == [k |-> k, p |-> p, a |-> a]
-ChS(deps, schema, crds) == [deps |-> deps, schema |-> schema, crds |-> crds]
+ChS(deps, schema, crds) == [deps |-> deps, schema |-> schema, crds |-> crds, notpl |-> FALSE]
 
 Own == <<Fix("root", <<"b">>, "s:root"), Fix("mid", <<"b">>, "s:mid"), Fix("leaf", <<"b">>, "s:leaf")>>
 
@@ -105,6 +105,13 @@ AliasSchema ==
                Slot("leaf", <<"a">>, <<Abs, Sc("n:1"), Sc("true")>>), Slot("user", <<"s1", "en">>, OnOff),
                Slot("user", <<"leaf", "a">>, <<Abs, Sc("s:z")>>)>>]
 
+\* the empty-values corner: a chart without dependencies and (possibly) without any default value, nothing supplied:
+\* the final values are {} - which `required` rejects like any other value tree
+EmptyVals ==
+  [name |-> "ev", fixed |-> <<>>, charts |-> [root |-> ChS(<<>>, FReq.s, FALSE)],
+   slots |-> <<Slot("root", <<"a">>, <<Abs, Sc("n:1")>>), Slot("user", <<"a">>, <<Abs, Sc("s:x")>>), Slot("set", <<"a">>, <<Abs, Sc("n:2")>>),
+               Slot("root", <<"b">>, <<Abs, Sc("s:root")>>)>>]
+
 \* charts that ship crds/ (root and leaf): what has reached the cluster when the gate rejects? (L19)
 WithCrds ==
   <<AtRoot("kr", FType, "a", <<Abs>>, <<Abs, Sc("n:2"), Sc("s:y")>>, <<Abs>>, TRUE),
@@ -112,9 +119,9 @@ WithCrds ==
 
 QuickShapes == Form3("ty", FType, "a", FALSE) \o Form3("in", FInt, "a", FALSE) \o Form3("rq", FReq, "a", FALSE)
                \o Form3("en", FEnum, "a", FALSE) \o Form3("rg", FRange, "a", FALSE) \o Form3("ne", FNested, "a", FALSE)
-               \o Form3("ci", FClosedIn, "a", FALSE) \o ClosedShapes(FALSE) \o <<Both, RootOverSub, AliasSchema>> \o WithCrds
+               \o Form3("ci", FClosedIn, "a", FALSE) \o ClosedShapes(FALSE) \o <<Both, RootOverSub, AliasSchema, EmptyVals>> \o WithCrds
 
 ThoroughShapes == Form3("ty", FType, "a", TRUE) \o Form3("in", FInt, "a", TRUE) \o Form3("rq", FReq, "a", TRUE)
                \o Form3("en", FEnum, "a", TRUE) \o Form3("rg", FRange, "a", TRUE) \o Form3("ne", FNested, "a", TRUE)
-               \o Form3("ci", FClosedIn, "a", TRUE) \o ClosedShapes(TRUE) \o <<Both, RootOverSub, AliasSchema>> \o WithCrds
+               \o Form3("ci", FClosedIn, "a", TRUE) \o ClosedShapes(TRUE) \o <<Both, RootOverSub, AliasSchema, EmptyVals>> \o WithCrds
 =============================================================================
